@@ -10,6 +10,7 @@ import Driver.Quote
 import Driver.Ansi
 import Driver.Http
 import Driver.Term
+import Driver.Render
 import Driver.Walk
 import Driver.Bind
 import Driver.Matcher
@@ -32,7 +33,7 @@ def dispatch (ctx : Driver.Algo.Ctx) (area op : String) (args impl : List String
   | "quote" => Driver.Quote.run op args impl
   | "ansi" => Driver.Ansi.run op args impl
   | "http" => Driver.Http.run op args impl
-  | "term" => Driver.Term.run ctx op args impl
+  | "term" => if op == "rend" then Driver.Render.run ctx op args impl else Driver.Term.run ctx op args impl
   | "walk" => Driver.Walk.run op args impl
   | "bind" => Driver.Bind.run op args impl
   | "matcher" => Driver.Matcher.run ctx op args impl
